@@ -421,13 +421,30 @@ func (eng *Engine) storedGlobal(g *ssa.Global) bool {
 	if eng.stored == nil {
 		eng.stored = map[*ssa.Global]bool{}
 		for fn := range ssautil.AllFunctions(eng.prog) {
-			if fn.Name() == "init" && fn.Parent() == nil && fn.Signature.Recv() == nil {
-				continue
-			}
+			isInit := fn.Name() == "init" && fn.Parent() == nil && fn.Signature.Recv() == nil
 			for _, b := range fn.Blocks {
 				for _, in := range b.Instrs {
-					if s, ok := in.(*ssa.Store); ok {
+					if s, ok := in.(*ssa.Store); ok && !isInit {
 						if rg := rootGlobal(s.Addr); rg != nil {
+							eng.stored[rg] = true
+						}
+					}
+					// an address that escapes (receiver or argument of a call,
+					// stored as a value, boxed, captured) may be written through
+					switch in := in.(type) {
+					case *ssa.UnOp, *ssa.FieldAddr, *ssa.IndexAddr, *ssa.Slice, *ssa.DebugRef:
+						continue
+					case *ssa.Store:
+						if rg := rootGlobal(in.Val); rg != nil {
+							eng.stored[rg] = true
+						}
+						continue
+					}
+					for _, op := range in.Operands(nil) {
+						if *op == nil {
+							continue
+						}
+						if rg := rootGlobal(*op); rg != nil {
 							eng.stored[rg] = true
 						}
 					}
